@@ -28,7 +28,7 @@ def _extra(ctx, spec):
 PROP = dict(
     level='proof',
     regen=['consts', 'csvprofile'],
-    theorems=['Fit.C19.C19_columns', 'Fit.C19.C19_columns_trim', 'Fit.C19.C19_tables', 'Fit.C19.C19_field_roundtrip_raw', 'Fit.C19.C19_raw_roundtrip_partial', 'Fit.C19.C19_sequences_partial',
+    theorems=['Fit.C19.C19_columns', 'Fit.C19.C19_columns_trim', 'Fit.C19.C19_tables', 'Fit.C19.C19_field_roundtrip_raw', 'Fit.C19.C19_raw_roundtrip_partial', 'Fit.C19.C19_scaled_roundtrip', 'Fit.C19.C19_sequences_partial',
               'Fit.C19.C19_scalar_roundtrip_raw'],
     families=[dict(name='csv', prop=True)],
     extra=_extra,
